@@ -21,6 +21,10 @@ pub const M_C19: u32 = 2;
 struct Active {
     pdu: Vec<u8>,
     ctx: ContextFrag,
+    label: Label,
+    ptype: u16,
+    /// false once the train has been replaced on the receiver side (its id or slot was claimed by a newer PDU)
+    live: bool,
 }
 
 #[derive(Clone, Debug)]
@@ -33,6 +37,8 @@ pub struct PktInfo {
     pub label: Option<Label>,
     pub has_ext: bool,
     pub corrupted: Option<&'static str>,
+    /// protocol type and label of the PDU this packet belongs to (continuation packets of a live train)
+    pub train_meta: Option<(u16, Label)>,
 }
 
 pub struct Source {
@@ -40,6 +46,8 @@ pub struct Source {
     active: Vec<Active>,
     labels: Vec<Label>,
     signalling: bool,
+    /// number of slots of the receivers' memory (ids of PDUs in flight are distinct modulo this)
+    slots: usize,
 }
 
 impl Source {
@@ -52,7 +60,7 @@ impl Source {
         if let Label::ThreeBytesLabel(b) = labels[1] {
             labels.push(Label::SixBytesLabel([b[0], b[1], b[2], rng.byte(), rng.byte(), 1 | rng.byte()]));
         }
-        Source { enc: Encapsulator::new(DefaultCrc {}), active: Vec::new(), labels, signalling }
+        Source { enc: Encapsulator::new(DefaultCrc {}), active: Vec::new(), labels, signalling, slots: 4 }
     }
 
     /// fill one frame of capacity `cap`; returns frame bytes (no padding yet) and packet infos
@@ -76,12 +84,12 @@ impl Source {
                 let r = guard(|| self.enc.encap_frag(&a.pdu, &a.ctx, &mut frame[off..off + limit]));
                 match r {
                     Ok(Ok(EncapStatus::CompletedPkt(n))) if n as usize <= limit && n >= 2 => {
-                        infos.push(PktInfo { off, len: n as usize, kind: Kind::End, frag_id: a.ctx.frag_id(), label: None, has_ext: false, corrupted: None });
+                        infos.push(PktInfo { off, len: n as usize, kind: Kind::End, frag_id: a.ctx.frag_id(), label: None, has_ext: false, corrupted: None, train_meta: if a.live { Some((a.ptype, a.label)) } else { None } });
                         off += n as usize;
                         self.active.remove(i);
                     }
                     Ok(Ok(EncapStatus::FragmentedPkt(n, c))) if n as usize <= limit && n >= 2 => {
-                        infos.push(PktInfo { off, len: n as usize, kind: Kind::Inter, frag_id: a.ctx.frag_id(), label: None, has_ext: false, corrupted: None });
+                        infos.push(PktInfo { off, len: n as usize, kind: Kind::Inter, frag_id: a.ctx.frag_id(), label: None, has_ext: false, corrupted: None, train_meta: if a.live { Some((a.ptype, a.label)) } else { None } });
                         off += n as usize;
                         self.active[i].ctx = c;
                     }
@@ -102,11 +110,31 @@ impl Source {
                     2 => rng.range(500, 3000),
                     _ => rng.below(300),
                 };
+                let mut plen = plen;
+                let mut label = if rng.chance(1, 12) { Label::ReUse } else { self.labels[rng.below(self.labels.len())] };
+                let used: Vec<usize> = self.active.iter().map(|a| a.ctx.frag_id() as usize % self.slots).collect();
+                let slot = (0..self.slots.min(4)).find(|s| !used.contains(s)).unwrap_or(0);
+                let mut frag_id = if self.slots == 255 {
+                    // ids 0 and 255 map to the same slot of a 255-slot memory: both are used
+                    [0u8, 255, 1, 2][rng.below(4)]
+                } else {
+                    (slot + self.slots * rng.below(256 / self.slots)) as u8
+                };
+                let mut restart_ptype: Option<u16> = None;
+                // one new PDU in ten abandons a PDU in flight and re-uses its fragment id at once for a PDU of the
+                // same size and protocol type but another label of the same kind
+                if !self.active.is_empty() && rng.chance(1, 10) {
+                    let a = &self.active[rng.below(self.active.len())];
+                    frag_id = a.ctx.frag_id();
+                    plen = a.pdu.len();
+                    restart_ptype = Some(a.ptype);
+                    label = match a.label {
+                        Label::SixBytesLabel(b) => Label::SixBytesLabel([b[0], b[1], b[2], b[3], b[4], b[5] ^ 0x40 | 1]),
+                        Label::ThreeBytesLabel(b) => Label::ThreeBytesLabel([b[0], b[1], b[2] ^ 0x40]),
+                        o => o,
+                    };
+                }
                 let pdu = rng.bytes(plen);
-                let label = if rng.chance(1, 12) { Label::ReUse } else { self.labels[rng.below(self.labels.len())] };
-                let used: Vec<u8> = self.active.iter().map(|a| a.ctx.frag_id() % 4).collect();
-                let slot = (0..4u8).find(|s| !used.contains(s)).unwrap_or(0);
-                let frag_id = slot + 4 * rng.below(64) as u8;
                 let (ptype, exts): (u16, Option<Vec<Extension>>) = if self.signalling && rng.chance(1, 8) {
                     ([0x0081u16, 0x0082][rng.below(2)], None)
                 } else if rng.chance(1, 8) {
@@ -130,6 +158,10 @@ impl Source {
                 } else {
                     (gen_user_ptype(rng), None)
                 };
+                let (ptype, exts) = match restart_ptype {
+                    Some(p) if p >= 0x0600 => (p, None),
+                    _ => (ptype, exts),
+                };
                 let meta = EncapMetadata::new(ptype, label);
                 let has_ext = exts.is_some();
                 let r = guard(|| match exts {
@@ -138,14 +170,21 @@ impl Source {
                 });
                 match r {
                     Ok(Ok(EncapStatus::CompletedPkt(n))) if n as usize <= limit && n >= 2 => {
-                        infos.push(PktInfo { off, len: n as usize, kind: Kind::Complete, frag_id, label: Some(label), has_ext, corrupted: None });
+                        infos.push(PktInfo { off, len: n as usize, kind: Kind::Complete, frag_id, label: Some(label), has_ext, corrupted: None, train_meta: None });
                         off += n as usize;
                     }
                     Ok(Ok(EncapStatus::FragmentedPkt(n, c))) if n as usize <= limit && n >= 2 => {
-                        infos.push(PktInfo { off, len: n as usize, kind: Kind::First, frag_id, label: Some(label), has_ext, corrupted: None });
+                        infos.push(PktInfo { off, len: n as usize, kind: Kind::First, frag_id, label: Some(label), has_ext, corrupted: None, train_meta: None });
                         off += n as usize;
                         self.active.retain(|a| a.ctx.frag_id() != frag_id);
-                        self.active.push(Active { pdu, ctx: c });
+                        let slots = self.slots;
+                        for a in self.active.iter_mut() {
+                            if a.ctx.frag_id() as usize % slots == frag_id as usize % slots {
+                                a.live = false;
+                            }
+                        }
+                        // (an explicit re-use label may be unresolvable: the receiver then has no live context)
+                        self.active.push(Active { pdu, ctx: c, label, ptype, live: label != Label::ReUse && !has_ext });
                     }
                     Ok(Err(_)) => {
                         if rng.chance(1, 3) {
@@ -192,7 +231,7 @@ pub fn gens(cx: &Cx) -> Vec<crate::Gen> {
     vec![crate::Gen { name: "frames", count: cx.n(12_000, 1_200_000), exhaustive: false }, crate::Gen { name: "tails", count: cx.n(20_000, 1_000_000), exhaustive: false }]
 }
 
-pub const RULE: &str = "frames: key -> a seeded traffic source (real encapsulator, up to 4 PDUs in flight on fragment ids distinct modulo the 4 memory slots, PDUs of 0..6000 bytes, labels from a 7-label alphabet (incl. 3- and 6-byte labels sharing their leading bytes) plus explicit re-use, optional extensions, signalling protocol types 0x0081/0x0082 when the receiver uses the signalisation manager) fills 1..6 consecutive frames of 64..16200 bytes with up to 40 packets each (trains continue across frames, label memories reset at frame boundaries on both sides), followed by 0..64 zero bytes (one frame in ten: 4090..9000 zero bytes); some packets are then corrupted in a listed way (bad CRC trailer, another fragment id incl. ids mapping to the same memory slot) and receivers sometimes have too little storage; a walker receiver advances by consumed lengths, a twin receiver gets each packet alone. tails: one packet (after its train prefix) followed by nothing / zeros / 0xFF / random bytes / another packet on identically prepared receivers. Every decap / peek call is an evaluation; non-trivial = a frame with at least 2 packets (or a tail variant set) fully compared; fingerprint = hash of the frame bytes.";
+pub const RULE: &str = "frames: key -> a seeded traffic source (real encapsulator, up to 4 PDUs in flight on fragment ids distinct modulo the memory slots (4 slots; one run in eight 255 slots with ids 0, 255, 1, 2, where 0 and 255 share a slot), one new PDU in ten abandons a PDU in flight and takes over its fragment id with the same size and type but another label, PDUs of 0..6000 bytes, labels from a 7-label alphabet (incl. 3- and 6-byte labels sharing their leading bytes) plus explicit re-use, optional extensions, signalling protocol types 0x0081/0x0082 when the receiver uses the signalisation manager) fills 1..6 consecutive frames of 64..16200 bytes with up to 40 packets each (trains continue across frames, label memories reset at frame boundaries on both sides), followed by 0..64 zero bytes (one frame in ten: 4090..9000 zero bytes); some packets are then corrupted in a listed way (bad CRC trailer, another fragment id incl. ids mapping to the same memory slot) and receivers sometimes have too few or too small storage buffers (PDUs overflow at an intermediate / end fragment); a walker receiver advances by consumed lengths, a twin receiver gets each packet alone. tails: one packet (after its train prefix) followed by nothing / zeros / 0xFF / random bytes / another packet on identically prepared receivers. Every decap / peek call is an evaluation; non-trivial = a frame with at least 2 packets (or a tail variant set) fully compared; fingerprint = hash of the frame bytes.";
 
 pub fn run_key(cx: &Cx, mask: u32, gen: &str, key: u64, rep: &mut Report) {
     let replay_s = format!("gen={} key={} seed={} profile={}", gen, key, cx.seed, cx.profile);
@@ -201,8 +240,14 @@ pub fn run_key(cx: &Cx, mask: u32, gen: &str, key: u64, rep: &mut Report) {
     let signalling = rng.chance(1, 2);
     let table = if signalling { MandTable::signalisation() } else { MandTable::none() };
     let nbuf = [1usize, 2, 6, 6, 6][rng.below(5)];
-    let mk = |t: &MandTable| plain_dec(4, 6000, nbuf, 6000, t.clone());
+    // storage sized for the largest PDU, or (one receiver in four) much smaller: long PDUs then overflow the
+    // storage at an intermediate / end fragment and are rejected there
+    let storage = if rng.chance(1, 4) { 700 } else { 6000 };
+    // 4-slot memories; one run in eight uses 255 slots, where fragment ids 0 and 255 share a slot
+    let slots = if rng.chance(1, 8) { 255 } else { 4 };
+    let mk = |t: &MandTable| plain_dec(slots, storage, nbuf, storage, t.clone());
     let mut src = Source::new(&mut rng, true);
+    src.slots = slots;
     match gen {
         "frames" => {
             let mut walker = mk(&table);
@@ -415,6 +460,20 @@ fn check_peek(d: &PlainDec, pkt: &[u8], with_tail: &[u8], inf: &PktInfo, dres: &
         rep.count("peek.calls");
         match inf.kind {
             Kind::Inter | Kind::End => {
+                // the PDU decap associates with this packet must be the sender's PDU of that fragment id
+                if vn == "alone" {
+                    if let (Some((pt, lb)), Some(m)) = (inf.train_meta, match dres {
+                        Ok(Ok((DecapStatus::CompletedPkt(_, m), _))) => Some(m.clone()),
+                        Ok(Ok((DecapStatus::FragmentedPkt(m), _))) => Some(m.clone()),
+                        _ => None,
+                    }) {
+                        if m.protocol_type() != pt || m.label() != lb {
+                            rep.violation("C19", format!("decap-associates-another-pdu:{}", cls), || format!("peek says fragment id {} for {}; decap accepted the packet into a PDU with type {:#06x} / label {} but the sender's PDU of id {} has type {:#06x} / label {}", inf.frag_id, hex_short(buf, 24), m.protocol_type(), label_str(&m.label()), inf.frag_id, pt, label_str(&lb)), replay);
+                        } else {
+                            rep.count("peek.association-ok");
+                        }
+                    }
+                }
                 if r != Ok(LabelorFragId::FragId(inf.frag_id)) || pkt[2] != inf.frag_id {
                     rep.violation("C19", format!("frag-id:{}:{}", cls, vn), || format!("peek on {} = {:?}, the sender's fragment id is {}", hex_short(buf, 40), r, inf.frag_id), replay);
                 } else {
